@@ -17,16 +17,16 @@ func init() {
 }
 
 func checkC03(r *Run) {
-	r.Rule("R1", "lexer reaches EOF and stays there: every lexer loop's condition is false for the NUL sentinel, readChar yields NUL at end of input, both token functions return EOF on NUL", 9)
-	r.Rule("R2", "every parser loop is EOF-safe: counted, positive-with-consumption, Pratt, or negative with an EOF exit (in the condition, by an EOF test that returns, or by a failing-returns expectPeek on every path)", 9)
-	r.Rule("R3", "progress on recursive cycles: no cycle of parse functions can be traversed without consuming a token", 20)
-	r.Rule("R4", "expectPeek idiom: every expectPeek call is the negated condition of an if whose body returns", 10)
-	r.Rule("R5", "nil-safety: no method call or field access through an expression that may be nil (a failed sub-parse) without a dominating nil test, in the parser and in the AST printers it calls", 25)
-	r.Rule("R6", "other panic obligations in lexer/parser/ast: single-result type assertions and index expressions are discharged", 8)
-	r.Rule("R7", "errors are values: Parse returns the error list iff it is non-empty; a parse function that gives up has recorded an error", 3)
-	r.Rule("R8", "cursor invariant: at end of input readChar pins position at len(input) and returns; input is indexed only under the in-range test", 3)
-	r.Rule("R9", "no typed nil: a node pointer that may be nil is never converted to an AST interface (return, assignment, argument, literal field, append) in the parser", 10)
-	r.Rule("R10", "printers are linear: on every path of an AST printer each child expression is printed at most once (the parser prints every statement; a double print costs 2^depth)", 30)
+	r.Rule("R1", "lexer reaches EOF and stays there: every lexer loop's condition is false for the NUL sentinel, readChar yields NUL at end of input, both token functions return EOF on NUL", 4)
+	r.Rule("R2", "every parser loop is EOF-safe: counted, positive-with-consumption, Pratt, or negative with an EOF exit (in the condition, by an EOF test that returns, or by a failing-returns expectPeek on every path)", 4)
+	r.Rule("R3", "progress on recursive cycles: no cycle of parse functions can be traversed without consuming a token", 8)
+	r.Rule("R4", "expectPeek idiom: every expectPeek call is the negated condition of an if whose body returns", 4)
+	r.Rule("R5", "nil-safety: no method call or field access through an expression that may be nil (a failed sub-parse) without a dominating nil test, in the parser and in the AST printers it calls", 10)
+	r.Rule("R6", "other panic obligations in lexer/parser/ast: single-result type assertions and index expressions are discharged", 3)
+	r.Rule("R7", "errors are values: Parse returns the error list iff it is non-empty; a parse function that gives up has recorded an error", 1)
+	r.Rule("R8", "cursor invariant: at end of input readChar pins position at len(input) and returns; input is indexed only under the in-range test", 1)
+	r.Rule("R9", "no typed nil: a node pointer that may be nil is never converted to an AST interface (return, assignment, argument, literal field, append) in the parser", 4)
+	r.Rule("R10", "printers are linear: on every path of an AST printer each child expression is printed at most once (the parser prints every statement; a double print costs 2^depth)", 10)
 	lx := analyseLexerArms(r.W)
 	lexerEOFRuleSSA(r, "R1")
 	parserLoopsRule(r, "R2")
